@@ -671,7 +671,10 @@ var c09Variants = map[string][]string{
 	"aconcat":     {"a=[1]; for true {vtick(); a=a+a}", "a=[1,2]; for 60 {vtick(); a=a+a}; len(a)", "m={0:0}; n=1; for true {vtick(); t={}; for kv=m {t[kv.key+n]=0}; m=m+t; n=n*2}"},
 	"srepeat":     {"s=\"abcdefgh\"*(1<<40); len(s)", "s=\"abcdefgh\"*(1<<61); len(s)", "s=\"abcdefgh\"*((1<<60)+1); len(s)", "s=\"x\"*(1<<62); len(s)", "s=\"abcdefgh\"*9223372036854775807; len(s)"},
 	"arepeat":     {"a=[1,2,3,4]*(1<<40); len(a)", "a=[1]*(1<<40); len(a)", "a=[1,2]*(1<<36); len(a)"},
-	"arepeatwrap": {"a=[1,2,3,4]*(1<<62); len(a)", "a=[1,2,3,4,5,6,7,8]*(1<<61); len(a)"},
+	"arepeatwrap": {"a=[1,2,3,4]*(1<<62); len(a)", "a=[1,2,3,4,5,6,7,8]*(1<<61); len(a)",
+		// the 64-bit product wraps around to a small positive value that is not below the length
+		"a=[1,2,3,4]*((1<<62)+1); len(a)", "a=[1,2,3,4,5,6,7,8]*((1<<61)+3); len(a)", "a=[1,2,3]*6148914691236517207; len(a)",
+		"a=[1,2,3,4,5]*3689348814741910325; len(a)", "a=[1,2,3,4]*((1<<62)+(1<<20)); len(a)", "a=[[1,2],[3]]*((1<<63)-1); len(a)"},
 	"range":       {"a=0:(1<<40); len(a)", "a=0:(1<<59); len(a)", "a=-(1<<40):(1<<40); len(a)", "a=-9223372036854775807:9223372036854775807; len(a)", "a=(0:(1<<62)); len(a)"},
 	"sleep":       {"sleep(30)", "sleep(1e9)", "func z(){sleep(30)}; z()", "for true {sleep(30)}"},
 }
@@ -1240,6 +1243,10 @@ func c09Pinned(c *Ctx) []c09Plan {
 		c09Plan{WantRefuse: true, Job: c09Job{Skel: "range", Src: "a=0:(1<<40); len(a)", MaxDepth: 100, DeadlineMs: 100, MemLimit: M64, Via: "string"}},
 		c09Plan{Job: c09Job{Skel: "aconcat", Src: "a=[1]; for true {vtick(); a=a+a}", MaxDepth: 100, DeadlineMs: 1000, MemLimit: M64, Via: "one"}},
 	)
+	// every size-overflow variant of array repetition (the product wraps around 2^64 to a negative, zero, small or large value)
+	for _, src := range c09Variants["arepeatwrap"] {
+		ps = append(ps, c09Plan{WantRefuse: true, Job: c09Job{Skel: "arepeatwrap", Src: src, MaxDepth: 100, DeadlineMs: 1000, MemLimit: M64, Via: "string", HardCap: 512 << 20}})
+	}
 	if c.Thorough() {
 		ps = append(ps,
 			c09Plan{Pinned: c09FindingOf["NestingUnguarded"], Job: c09Job{Skel: "nest", Gen: "paren", GenN: 2000000, MaxDepth: 1000, DeadlineMs: 1000, MemLimit: 2 << 30, Via: "one", HardCap: 3 << 30}},
